@@ -766,7 +766,7 @@ fn check_environment(case: &Value, obs: &mut Obs) -> Result<(), String> {
         vars.retain(|(n, _)| n != k);
         vars.push((k.to_string(), v.to_string()));
     }
-    let env = cli::Env { vars, cwd: "/".to_string() };
+    let env = cli::Env { clear: true, vars, cwd: "/".to_string() };
     let got = call(&rule, &data, obs, "in-process")?;
     let plain = cli::run(&bin, &rule.to_string(), &cli::Channel::Arg(data.to_string()))?;
     let hostile = cli::run_env(&bin, &rule.to_string(), &cli::Channel::Arg(data.to_string()), Some(&env))?;
